@@ -191,3 +191,43 @@ def repr_fails(want, out, ev, rs):
 def suffix_join(gots, m):
     """Concatenation of the last m outputs."""
     return ''.join(gots[len(gots) - m:])
+
+
+# ------------------------------------------------------------------ runtime state seen from outside
+def rs_skip(state):
+    """C04: a statement is executed iff SKIP is off and no unmet REQUIRES condition is pending."""
+    return rs_flag(state, 'SKIP') or rs_requires_pending(state) > 0
+
+
+@uninterp('(list[str]) -> bool', note="some line is neither blank nor a comment")
+def has_code(lines):
+    return any(l.strip() and not l.strip().startswith('#') for l in lines)
+
+
+from pyvc.specs_support import native as _native
+from pyvc import smt as _smt
+
+
+def _rs_flag_builder(ts):
+    _smt.CTX.sort('Val')
+    _smt.CTX.fun('rs_flag', ['Val', 'String'], 'Bool')
+    return _smt.CTX.app('rs_flag', ts[0], ts[1])
+
+
+def _rs_pending_builder(ts):
+    _smt.CTX.sort('Val')
+    _smt.CTX.fun('rs_requires', ['Val'], '(Array String Bool)')
+    _smt.CTX.fun('py_card', ['(Array String Bool)'], 'Int')
+    return _smt.CTX.app('py_card', _smt.CTX.app('rs_requires', ts[0]))
+
+
+@_native('(Val, str) -> bool', _rs_flag_builder)
+def rs_flag(state, key):
+    """Effective value of a boolean flag (the same symbol the model of runstate[key] uses)."""
+    return bool(state[key])
+
+
+@_native('(Val) -> int', _rs_pending_builder)
+def rs_requires_pending(state):
+    """Number of unmet REQUIRES conditions pending in the state."""
+    return len(state['REQUIRES'])
